@@ -642,12 +642,14 @@ pub fn run(args: &Args) -> i32 {
     if let Some((i, n)) = args.shard {
         let root = scratch_root();
         let _g = ScratchGuard(root.clone());
-        let rt = runtime();
         let mut out = Outcome::default();
-        let res: Result<(), String> = rt.block_on(async {
-            let mine: Vec<&History> = hs.iter().enumerate().filter(|(hi, _)| hi % n == i).map(|(_, h)| h).collect();
-            // fresh instances every few histories keep the databases small (histories are room scoped)
-            for chunk in mine.chunks(24) {
+        let mine: Vec<&History> = hs.iter().enumerate().filter(|(hi, _)| hi % n == i).map(|(_, h)| h).collect();
+        let mut res: Result<(), String> = Ok(());
+        // fresh instances every few histories keep the databases small (histories are room scoped);
+        // one runtime per chunk: dropping it ends the instances' tasks and threads
+        for chunk in mine.chunks(24) {
+            let rt = runtime();
+            let r: Result<(), String> = rt.block_on(async {
                 set_clock(tick(0));
                 let u = Universe::start(&root).await?;
                 let r2 = u
@@ -659,9 +661,14 @@ pub fn run(args: &Args) -> i32 {
                 for h in chunk {
                     explore_history(&u, &r2, &r3, h, &mut out, args.tier == Tier::Thorough).await?;
                 }
+                Ok(())
+            });
+            drop(rt);
+            if r.is_err() {
+                res = r;
+                break;
             }
-            Ok(())
-        });
+        }
         if let Err(e) = res {
             out.machinery_errors.push(e);
         }
